@@ -878,8 +878,12 @@ def check_C04(tier, seed):
     ocases = [{"id": "ops-%04d" % i, "family": "bind-groups-op-sequences", "S": S2, "opts": F.opts(), "ops": e["ops"]} for i, e in enumerate(seqs[:(120 if quick else 2317)])]
     # a formatter that hands back the program with two binding fields exchanged must not be believed
     fmt_env()
-    ocases += [{"id": "ops-fmtswap-%d" % i, "family": "bind-groups-op-sequences-formatter-swaps-fields", "S": S2, "opts": F.opts(rustfmt=True), "ops": e["ops"], "fmt_plan": "near_field_swap"}
-               for i, e in enumerate(seqs[200:204])]
+    S3 = F.bgd_shader([{"g": 0, "b": 4}, {"g": 0, "b": 1}, {"g": 1, "b": 0}, {"g": 1, "b": 2}], use=True, names=["first", "second", "third", "fourth"])
+    swap_ops = [[{"op": "from_bindings", "arg": "0"}, {"op": "from_bindings", "arg": "1"}, {"op": "set_bind_groups", "arg": "compute"}, {"op": "create_pipeline_layout", "arg": ""}],
+                [{"op": "get_layout", "arg": "1"}, {"op": "from_bindings", "arg": "1"}, {"op": "from_bindings", "arg": "0"}, {"op": "set", "arg": "0@render"}]]
+    ocases += [{"id": "ops-fmtswap-%d" % i, "family": "bind-groups-op-sequences-formatter-swaps-fields", "S": S3, "opts": F.opts(rustfmt=True), "ops": ops_, "fmt_plan": "near_field_swap"}
+               for i, ops_ in enumerate(swap_ops)]
+    ocases += [{"id": "ops-fmtok-%d" % i, "family": "bind-groups-op-sequences-formatter-on", "S": S3, "opts": F.opts(rustfmt=True), "ops": ops_, "fmt_plan": "ok"} for i, ops_ in enumerate(swap_ops)]
     compiled_and_judge(rep, "C04", ocases, "ops", "shim", want, keep=["groups"])
     compiled_and_judge(rep, "C04", sparse_group_cases(rng, 150 if quick else 3000), "random", "shim", want, keep=["groups"])
     return finish(rep)
